@@ -11,18 +11,19 @@
 // function can no longer be translated). No loops, no memory.
 //
 // Semantics of the translation (the trusted part, kept small):
-//   int, int64, uint64 -> BitVec 64   uint32 -> BitVec 32   uint8, byte -> BitVec 8   bool -> Bool
-//   (int is 64 bits wide: GOARCH amd64 / arm64)
-//   + - * unary- and the bitwise operators are the BitVec operations (Go integer arithmetic wraps)
-//   x << n, x >> n: BitVec shift by n.toNat, >> arithmetic for signed x and logical for unsigned x
-//     (Go: a shift count of the operand's width or more gives 0, or -1 for a negative signed x under >>,
-//     which is what BitVec.shiftLeft / ushiftRight / sshiftRight do; a NEGATIVE signed count panics in
-//     Go and is a large count here — the theorems only use counts in 0..64)
-//   comparisons: BitVec.slt / sle for the signed types, ult / ule for the unsigned ones
-//   T(x): same width -> x; narrower T -> truncation (setWidth); wider T -> zero extension for an
-//     unsigned x, sign extension for a signed x
-//   statements: `x := e; rest` -> `let x := e; rest`; an `if` that does not return on every path is
-//     translated by copying the statements that follow it into both branches
+//
+//	int, int64, uint64 -> BitVec 64   uint32 -> BitVec 32   uint8, byte -> BitVec 8   bool -> Bool
+//	(int is 64 bits wide: GOARCH amd64 / arm64)
+//	+ - * unary- and the bitwise operators are the BitVec operations (Go integer arithmetic wraps)
+//	x << n, x >> n: BitVec shift by n.toNat, >> arithmetic for signed x and logical for unsigned x
+//	  (Go: a shift count of the operand's width or more gives 0, or -1 for a negative signed x under >>,
+//	  which is what BitVec.shiftLeft / ushiftRight / sshiftRight do; a NEGATIVE signed count panics in
+//	  Go and is a large count here — the theorems only use counts in 0..64)
+//	comparisons: BitVec.slt / sle for the signed types, ult / ule for the unsigned ones
+//	T(x): same width -> x; narrower T -> truncation (setWidth); wider T -> zero extension for an
+//	  unsigned x, sign extension for a signed x
+//	statements: `x := e; rest` -> `let x := e; rest`; an `if` that does not return on every path is
+//	  translated by copying the statements that follow it into both branches
 //
 // Besides whole functions the tool extracts *guards*: the condition of the `if` statement whose body
 // assigns a given constant (VALUE_OVERFLOW), with the local definitions it depends on inlined, as a Lean
@@ -67,11 +68,22 @@ func (t ty) lean() string {
 var wholeFuncs = []string{"isSignedSumOverflow", "isUnsignedOverflow", "saturateValue", "signExtend", "isPowerOfTwo"}
 
 type guardSpec struct {
-	fn, recv string   // function (method) name
-	constant string   // the guarded body assigns this identifier
+	fn, recv string // function (method) name
+	constant string // the guarded body assigns this identifier
 	leanName string
 	vars     []string // free variables, in parameter order
 	varTypes []string
+}
+
+// methods that only read and write integer fields of their receiver: translated as functions from the
+// fields to the tuple of the fields
+type fieldMethodSpec struct {
+	recv, fn, leanName string
+	fields, fieldTypes []string
+}
+
+var fieldMethods = []fieldMethodSpec{
+	{"sipHash", "round", "sipRound", []string{"v0", "v1", "v2", "v3"}, []string{"uint64", "uint64", "uint64", "uint64"}},
 }
 
 var guards = []guardSpec{
@@ -82,6 +94,8 @@ var guards = []guardSpec{
 // ---------------------------------------------------------------- translation
 
 type env struct {
+	tuple   string // what a field method "returns": the tuple of its fields
+	recv    string // receiver name of a field method ("" otherwise): recv.f reads and writes the field f
 	vars    map[string]ty
 	funcs   map[string]*sig
 	result  ty
@@ -120,8 +134,50 @@ func lit(v string, t ty, pos token.Pos) string {
 	return fmt.Sprintf("%d#%d", n, t.width)
 }
 
+// constVal evaluates an integer constant expression made of literals (64-13, 1<<3, …)
+func constVal(e ast.Expr) (uint64, bool) {
+	switch x := e.(type) {
+	case *ast.ParenExpr:
+		return constVal(x.X)
+	case *ast.BasicLit:
+		if x.Kind != token.INT {
+			return 0, false
+		}
+		n, err := strconv.ParseUint(x.Value, 0, 64)
+		return n, err == nil
+	case *ast.BinaryExpr:
+		a, ok1 := constVal(x.X)
+		b, ok2 := constVal(x.Y)
+		if !ok1 || !ok2 {
+			return 0, false
+		}
+		switch x.Op {
+		case token.ADD:
+			return a + b, true
+		case token.SUB:
+			if b > a {
+				return 0, false
+			}
+			return a - b, true
+		case token.MUL:
+			return a * b, true
+		case token.SHL:
+			if b > 63 {
+				return 0, false
+			}
+			return a << b, true
+		}
+	}
+	return 0, false
+}
+
 // expr translates e; want is the type an untyped constant should take (untyped if unknown)
 func (ev *env) expr(e ast.Expr, want ty) (string, ty) {
+	if _, isLit := e.(*ast.BasicLit); !isLit {
+		if v, ok := constVal(e); ok {
+			return ev.expr(&ast.BasicLit{Kind: token.INT, Value: strconv.FormatUint(v, 10), ValuePos: e.Pos()}, want)
+		}
+	}
 	switch x := e.(type) {
 	case *ast.ParenExpr:
 		s, t := ev.expr(x.X, want)
@@ -134,6 +190,15 @@ func (ev *env) expr(e ast.Expr, want ty) (string, ty) {
 			return "\x00" + x.Value, untyped // resolved by the caller
 		}
 		return lit(x.Value, want, x.Pos()), want
+	case *ast.SelectorExpr:
+		if id, ok := x.X.(*ast.Ident); ok && ev.recv != "" && id.Name == ev.recv {
+			t, ok := ev.vars[x.Sel.Name]
+			if !ok {
+				fail(x.Pos(), fset, "field %s is not among the translated fields", x.Sel.Name)
+			}
+			return x.Sel.Name, t
+		}
+		fail(x.Pos(), fset, "selector expression")
 	case *ast.Ident:
 		if x.Name == "true" || x.Name == "false" {
 			return x.Name, types["bool"]
@@ -306,6 +371,9 @@ func indent(n int) string { return strings.Repeat("  ", n) }
 // block translates stmts followed by rest (statements that follow the enclosing `if`)
 func (ev *env) block(stmts []ast.Stmt, depth int) string {
 	if len(stmts) == 0 {
+		if ev.tuple != "" {
+			return ev.tuple
+		}
 		if ev.resName != "" {
 			return ev.resName
 		}
@@ -350,6 +418,11 @@ func (ev *env) block(stmts []ast.Stmt, depth int) string {
 			fail(x.Pos(), fset, "multiple assignment")
 		}
 		id, ok := x.Lhs[0].(*ast.Ident)
+		if sel, isSel := x.Lhs[0].(*ast.SelectorExpr); isSel && ev.recv != "" {
+			if r, isId := sel.X.(*ast.Ident); isId && r.Name == ev.recv {
+				id, ok = sel.Sel, true
+			}
+		}
 		if !ok {
 			fail(x.Pos(), fset, "assignment target")
 		}
@@ -364,7 +437,7 @@ func (ev *env) block(stmts []ast.Stmt, depth int) string {
 			if !ok {
 				fail(x.Pos(), fset, "assignment operator %v", x.Tok)
 			}
-			rhs = &ast.BinaryExpr{X: id, Op: op, Y: x.Rhs[0], OpPos: x.Pos()}
+			rhs = &ast.BinaryExpr{X: x.Lhs[0], Op: op, Y: x.Rhs[0], OpPos: x.Pos()}
 		}
 		want := untyped
 		if t, ok := ev.vars[id.Name]; ok && x.Tok != token.DEFINE {
@@ -473,6 +546,33 @@ func translateFunc(fd *ast.FuncDecl, funcs map[string]*sig) (out string, sg *sig
 	out = fmt.Sprintf("/-- `%s` (%s) -/\ndef %s %s : %s :=\n  %s\n", fd.Name.Name, filepath.Base(pos.Filename),
 		fd.Name.Name, strings.Join(params, " "), rt[0].lean(), body)
 	return out, &sig{pt, rt[0]}, nil
+}
+
+func translateFieldMethod(fd *ast.FuncDecl, m fieldMethodSpec, funcs map[string]*sig) (out string, err error) {
+	defer func() {
+		if r := recover(); r != nil {
+			if te, ok := r.(terr); ok {
+				err = fmt.Errorf("%s", te.msg)
+				return
+			}
+			panic(r)
+		}
+	}()
+	if fd.Recv == nil || len(fd.Recv.List) != 1 || len(fd.Recv.List[0].Names) != 1 || (fd.Type.Params != nil && len(fd.Type.Params.List) > 0) || fd.Type.Results != nil {
+		return "", fmt.Errorf("%s.%s: not a parameterless method without results", m.recv, m.fn)
+	}
+	ev := &env{vars: map[string]ty{}, funcs: funcs, recv: fd.Recv.List[0].Names[0].Name}
+	var params, rts []string
+	for i, f := range m.fields {
+		ev.vars[f] = types[m.fieldTypes[i]]
+		params = append(params, fmt.Sprintf("(%s : %s)", f, types[m.fieldTypes[i]].lean()))
+		rts = append(rts, types[m.fieldTypes[i]].lean())
+	}
+	ev.tuple = "(" + strings.Join(m.fields, ", ") + ")"
+	body := ev.block(fd.Body.List, 1)
+	pos := fset.Position(fd.Pos())
+	return fmt.Sprintf("/-- `(%s).%s` (%s): the fields %s before -> after -/\ndef %s %s : %s :=\n  %s\n", m.recv, m.fn, filepath.Base(pos.Filename),
+		strings.Join(m.fields, ", "), m.leanName, strings.Join(params, " "), strings.Join(rts, " × "), body), nil
 }
 
 // guard extraction ----------------------------------------------------------------------------------------
@@ -658,6 +758,20 @@ func main() {
 		funcs[n] = sg
 		sb.WriteString(out + "\n")
 		names = append(names, n)
+	}
+	for _, m := range fieldMethods {
+		fd, ok := decls[m.recv+"."+m.fn]
+		if !ok {
+			errs = append(errs, fmt.Sprintf("method %s.%s no longer exists", m.recv, m.fn))
+			continue
+		}
+		out, err := translateFieldMethod(fd, m, funcs)
+		if err != nil {
+			errs = append(errs, err.Error())
+			continue
+		}
+		sb.WriteString(out + "\n")
+		names = append(names, m.leanName)
 	}
 	for _, g := range guards {
 		fd, ok := decls[g.recv+"."+g.fn]
